@@ -344,7 +344,7 @@ def domainless_case(N):
 
 
 def cases(tier, seed):
-    L = 4 if tier == "quick" else 7
+    L = 4 if tier == "quick" else 6
     N = 2
     cs = []
     for fam in FAMILIES:
@@ -363,7 +363,7 @@ def cases(tier, seed):
 
 
 def describe(tier):
-    L = 4 if tier == "quick" else 7
+    L = 4 if tier == "quick" else 6
     return dict(
         rule="scenario family (one query twice; two-variable query; two queries sharing a variable; sharing a variable whose domain is a generator; sharing a sub-expression; exists; for_all; the() then an(); "
         "rule query; rule query with refinement; plus a suspended evaluation over a domain-less variable while the program creates / another evaluation infers instances of its type) x mode (sequential 0,1,0; evaluation 1 nested inside every step of evaluation 0; a symbolic schedule of <= %d "
